@@ -9,7 +9,10 @@ import kani_run
 
 
 def registry():
-    txt = open(os.path.join(kani_run.HARNESS_SRC, "src", "lib.rs")).read()
+    txt = ""
+    for fn in sorted(os.listdir(os.path.join(kani_run.HARNESS_SRC, "src"))):
+        if fn.endswith(".rs"):
+            txt += open(os.path.join(kani_run.HARNESS_SRC, "src", fn)).read() + "\n"
     reg = {}
     for m in re.finditer(r'//\s*n\((\w+),\s*"([^"]*)",\s*"([^"]*)",\s*"([^"]*)"\);', txt):
         reg[m.group(1)] = {"props": [p.strip() for p in m.group(2).split(",")], "functions": [f.strip() for f in m.group(3).split(";")], "bound": m.group(4)}
@@ -44,6 +47,7 @@ def run(names, repo, workdir):
         f = re.search(r"ENUM-FAILED harness=\w+ case=(\d+) digits=(\[.*?\]) message=(.*)", p.stdout)
         if m and p.returncode == 0:
             ob["status"] = "discharged"
+            ob["cases"] = int(m.group(1))
             ob["bound"] += "; %s combinations executed on the real code (exhausted=%s)" % (m.group(1), m.group(3))
         elif f:
             ob["status"] = "failed"
